@@ -25,6 +25,8 @@ struct Session {
     bool solved = false;	// holds a solved, not yet added calibration
     int failed_solves = 0;
     std::vector<int> added_params;	// indices of parameters used by accepted standards
+    std::map<int, int> handle_map;	// handle -> parameter this session bound it to (a handle deleted
+					// while the session uses it keeps meaning that parameter here)
 };
 struct CalSlot {
     int ci = -1;
@@ -33,6 +35,7 @@ struct CalSlot {
     std::vector<ParamSpec> params;	// snapshot of the parameter list the spec refers to
     bool determining = false;
     bool has_unknown = false;
+    bool has_vector = false;
     DNode props;
 };
 struct CalWorld {
@@ -46,6 +49,14 @@ struct CalWorld {
     bool solo_twin = true;
     explicit CalWorld(Ctx &ctx) : c(ctx) {}
 };
+
+// a freshly returned handle may reuse the number of a deleted parameter: entries of the dead
+// parameter can no longer address anything and get an impossible handle
+static void note_new_handle(CalWorld &w, int h)
+{
+    for (auto &o : w.params) if (!o.live && o.handle == h) o.handle = 1000000;
+}
+static bool exact_vector(const ParamSpec &p) { return p.kind != 2 || (p.kf.size() >= 5 && p.gclass <= 2); }
 
 static int resolve_param(CalWorld &w, long pref)
 {
@@ -94,6 +105,9 @@ static int classify(const SessionSpec &ss, const std::vector<ParamSpec> &params)
     }
     // determining: three well separated known reflections on every port and a known through
     // (or line) between every pair of ports; full measurement matrices where leakage is modelled
+    // interpolated standards are only as exact as their knots allow: a session using a coarse one
+    // is not held to the truth
+    for (const StdSpec &st : ss.stds) for (int pi : st.params) if (!exact_vector(params[(size_t)pi])) return 0;
     auto known_std = [&](const StdSpec &st) { for (int pi : st.params) if (!params[(size_t)pi].known()) return false; return true; };
     double f0 = ss.fv.empty() ? 1e9 : ss.fv[0];
     for (int p = 1; p <= P; ++p) {
@@ -297,6 +311,8 @@ static void run_op(CalWorld &w, const Op &op, const Plan &plan)
 	{ LibCall lc(c, &op); lp.handle = vnacal_make_scalar_parameter(w.vcp, toc(lp.spec.value)); lc.done(); }
 	if (lp.handle < 0) { c.violate("model", "mkscalar:rc", "vnacal_make_scalar_parameter failed"); return; }
 	lp.live = true;
+	note_new_handle(w, lp.handle);
+	if (lp.handle <= 2) { lp.spec.kind = 0; lp.spec.predefined = lp.handle; }	// the library answered with a predefined handle
 	for (auto &o : w.params) if (o.live && o.handle == lp.handle && o.handle > 2) { c.violate("model", "mkscalar:unique", strf("new handle %d equals a live handle", lp.handle)); return; }
 	w.params.push_back(lp);
 	return;
@@ -316,6 +332,7 @@ static void run_op(CalWorld &w, const Op &op, const Plan &plan)
 	{ LibCall lc(c, &op); lp.handle = vnacal_make_vector_parameter(w.vcp, lp.spec.kf.data(), n, gv.data()); lc.done(); }
 	if (lp.handle < 0) { c.violate("model", "mkvector:rc", "vnacal_make_vector_parameter failed for ascending positive frequencies"); return; }
 	lp.live = true;
+	note_new_handle(w, lp.handle);
 	for (auto &o : w.params) if (o.live && o.handle == lp.handle) { c.violate("model", "mkvector:unique", strf("new handle %d equals a live handle", lp.handle)); return; }
 	w.params.push_back(lp);
 	return;
@@ -338,6 +355,7 @@ static void run_op(CalWorld &w, const Op &op, const Plan &plan)
 	}
 	if (!guess_live) { c.violate("model", "mkunknown:rc", "vnacal_make_unknown_parameter accepted a deleted handle as initial guess"); return; }
 	lp.handle = h; lp.live = true;
+	note_new_handle(w, h);
 	for (auto &o : w.params) if (o.live && o.handle == h) { c.violate("model", "mkunknown:unique", strf("new handle %d equals a live handle", h)); return; }
 	if (g.kind == 2) lp.spec.guess = param_truth(g, g.kf[0]);
 	w.params.push_back(lp);
@@ -357,7 +375,11 @@ static void run_op(CalWorld &w, const Op &op, const Plan &plan)
 	    }
 	}
 	if (!live) { c.violate("model", "delparam:rc", strf("vnacal_delete_parameter(%d) succeeded on an already deleted handle", h)); return; }
-	if (pi >= 0) { w.params[(size_t)pi].live = false; c.count("probe.param_deleted"); }
+	if (pi >= 0 && w.params[(size_t)pi].spec.kind != 0) {
+	    // every entry that shares the handle dies with it
+	    for (auto &o : w.params) if (o.handle == h) o.live = false;
+	    c.count("probe.param_deleted");
+	} else c.count("probe.predefined_delete_noop");
 	return;
     }
     if (k == "getpv") {
@@ -487,7 +509,11 @@ static void run_op(CalWorld &w, const Op &op, const Plan &plan)
 		w.params.push_back(lp);
 		pi = (int)w.params.size() - 1;
 		// keep it out of reach of modulo-references by marking it predefined (kind 0)
-	    } else if (!w.params[(size_t)pi].live) all_live = false;
+	    } else {
+		auto hm = s.handle_map.find(h);
+		if (hm != s.handle_map.end()) { pi = hm->second; ps = w.params[(size_t)pi].spec; if (!w.params[(size_t)pi].live) c.count("probe.deleted_handle_still_used"); }
+		else if (!w.params[(size_t)pi].live) all_live = false;
+	    }
 	    if (ps.kind == 3) any_unknown = true;
 	    handles.push_back(h);
 	    pidx.push_back(pi);
@@ -551,12 +577,14 @@ static void run_op(CalWorld &w, const Op &op, const Plan &plan)
 	    if (!all_live) { c.violate("model", "add:deleted", "a standard naming a deleted parameter handle was accepted"); return; }
 	    if (clearly_missed) { c.violate("model", "add:range", "a vector standard missing the calibration band by more than 5% was accepted"); return; }
 	    s.spec.stds.push_back(st);
-	    for (int pi : pidx) s.added_params.push_back(pi);
+	    for (size_t q = 0; q < pidx.size(); ++q) { s.added_params.push_back(pidx[q]); s.handle_map.emplace(handles[q], pidx[q]); }
 	    s.solved = false;
 	    c.count(strf("add.kind%d.variant%d.%s", st.kind, st.variant, st.full ? "full" : "abbr"));
 	    if (any_unknown) c.count("probe.unknown_standard");
 	} else {
-	    if (sc.fired) { c.count("probe.add_failed_by_fault"); if (sc.err != ENOMEM) c.violate("model", "add:errno", strf("add failed under an allocation fault with errno %s", errno_name(sc.err))); return; }
+	    // (whether the call would have failed without the fault is not known here: the strict ENOMEM
+	    // clause is decided by the C12 enumeration, where the fault-free outcome is known)
+	    if (sc.fired) { c.count("probe.add_failed_by_fault"); if (sc.err != ENOMEM && sc.err != EINVAL && sc.err != EDOM) c.violate("model", "add:errno", strf("add failed under an allocation fault with errno %s", errno_name(sc.err))); return; }
 	    if (all_live && covered) { c.violate("model", "add:rc", strf("valid standard refused: kind %d ports %d,%d full %d variant %d: %s", st.kind, p1, p2, (int)st.full, st.variant, sc.msg.c_str())); return; }
 	    if (sc.err != EINVAL) { c.violate("model", "add:errno", strf("standard refused with errno %s, expected EINVAL", errno_name(sc.err))); return; }
 	    c.count(all_live ? "probe.range_refused" : "probe.deleted_handle_refused");
@@ -581,7 +609,7 @@ static void run_op(CalWorld &w, const Op &op, const Plan &plan)
 	c.log(" solve class=%d -> %d errno=%s %s", cls, rc, rc ? errno_name(e) : "-", msg.c_str());
 	if (c.violated) return;
 	c.count(strf("solve.class%d.%s", cls, rc == 0 ? "ok" : "fail"));
-	if (fired) { if (rc != 0 && e != ENOMEM) c.violate("model", "solve:errno", strf("solve failed under an allocation fault with errno %s", errno_name(e))); if (rc != 0) { ++s.failed_solves; c.count("probe.solve_failed_by_fault"); } else s.solved = true; return; }
+	if (fired) { if (rc != 0 && e != ENOMEM && e != EDOM && e != EINVAL) c.violate("model", "solve:errno", strf("solve failed under an allocation fault with errno %s", errno_name(e))); if (rc != 0) { ++s.failed_solves; c.count("probe.solve_failed_by_fault"); } else s.solved = true; return; }
 	if (!s.fv_set) { if (rc == 0) c.violate("model", "solve:rc", "solve succeeded before the frequency vector was set"); else if (e != EINVAL) c.violate("model", "solve:errno", strf("solve without frequency vector: errno %s", errno_name(e))); return; }
 	if (rc != 0) {
 	    ++s.failed_solves;
@@ -621,6 +649,7 @@ static void run_op(CalWorld &w, const Op &op, const Plan &plan)
 	slot.ci = ci; slot.name = name; slot.spec = s.spec; slot.params = pl;
 	slot.determining = classify(s.spec, pl) == 1;
 	for (auto &st : s.spec.stds) for (int pi : st.params) if (!pl[(size_t)pi].known()) slot.has_unknown = true;
+	for (auto &st : s.spec.stds) for (int pi : st.params) if (pl[(size_t)pi].kind == 2) slot.has_vector = true;
 	auto it = w.table.find(name);
 	if (it != w.table.end()) { c.count("probe.replace_by_name"); if (it->second.ci != ci) c.count("probe.replace_moved_slot"); w.table.erase(it); }
 	for (auto &kv : w.table) if (kv.second.ci == ci) { c.violate("model", "addcal:index", strf("add_calibration(\"%s\") returned index %d which holds live calibration \"%s\"", name.c_str(), ci, kv.second.name.c_str())); return; }
@@ -646,10 +675,14 @@ static void run_op(CalWorld &w, const Op &op, const Plan &plan)
 	if (op.I(3) == 1 && fq.size() >= 2) { std::vector<double> mid; for (size_t q = 0; q + 1 < fq.size(); ++q) mid.push_back(0.5 * (fq[q] + fq[q + 1])); fq = mid; }
 	ApplyResult r = apply_device(c, w.vcp, slot.ci, slot.spec, fq, dut_seed, mode, &op);
 	if (c.violated) return;
+	if (r.rc != 0 && !slot.determining && r.err == EDOM) { c.count("probe.apply_unclassified_set_singular"); return; }
 	if (r.rc != 0) { if (g_sim.fired_vna) return; c.violate("model", "apply:rc", strf("apply of calibration \"%s\" failed (%d, errno %s): %s", name.c_str(), r.rc, errno_name(r.err), r.msg.c_str())); return; }
 	if (!slot.determining) { c.count("probe.apply_unclassified_set"); return; }
 	bool on_grid = op.I(3) != 1;
-	double tol = slot.has_unknown ? 1e-4 : on_grid ? 1e-8 : 1e-5;
+	// between grid points the error terms are interpolated: asserted only with enough points to
+	// represent the (low-order polynomial) frequency dependence of the instrument
+	if (!on_grid && slot.spec.F < 5) { c.count("probe.apply_between_points_too_few_points"); return; }
+	double tol = slot.has_unknown ? 1e-4 : !on_grid ? 1e-4 : slot.has_vector ? 1e-5 : 1e-8;
 	double err = apply_error(slot.spec, fq, dut_seed, r);
 	c.log(" apply %s ci=%d err=%g", name.c_str(), slot.ci, err);
 	if (!(err <= tol)) { c.violate("model", "apply:truth", strf("calibration \"%s\" (type %d, %d ports, %s form, %zu standards) corrects the device with error %.3g (tolerance %.1g)", name.c_str(), slot.spec.type, slot.spec.P, slot.spec.ab ? "a/b" : "m", slot.spec.stds.size(), err, tol)); return; }
